@@ -321,10 +321,17 @@ func originalFor(h *History, v *opView, m *refdns.Msg) (orig *refdns.Msg, meta p
 	if u == nil {
 		return nil, meta, "unknown-upstream"
 	}
+	if len(m.Q) != 1 {
+		return nil, meta, "noquestion"
+	}
+	qn := m.Q[0].Name.Lower()
+	wantKey := peers.KeyOf(qn, meta.Class, meta.Type)
 	found := false
+	arrival := 0
 	for _, r := range u.Replies {
-		if r.Token == meta.Token && r.Serial == meta.Serial && (r.Kind == "reply" || r.Kind == "dup" || r.Kind == "wrong_id" || r.Kind == "half") {
+		if r.Token == meta.Token && r.Serial == meta.Serial && r.Key == wantKey && (r.Kind == "reply" || r.Kind == "dup" || r.Kind == "wrong_id" || r.Kind == "half" || r.Kind == "tc") {
 			found = true
+			arrival = r.Arrival
 			break
 		}
 	}
@@ -333,13 +340,9 @@ func originalFor(h *History, v *opView, m *refdns.Msg) (orig *refdns.Msg, meta p
 	}
 	spec := &u.DefaultAns
 	if t := h.RP.Tokens[meta.Token]; t != nil {
-		spec = &t.Ans
+		spec = t.SpecFor(arrival)
 	}
-	if len(m.Q) != 1 {
-		return nil, meta, "noquestion"
-	}
-	q := m.Q[0]
-	orig = peers.Generate(h.P.Seed, meta.Up, meta.Token, q.Name.Lower(), q.Class, q.Type, spec, meta.Serial, meta.ECS, meta.GenNs)
+	orig = peers.Generate(h.P.Seed, meta.Up, meta.Token, qn, meta.Class, meta.Type, spec, meta.Serial, meta.ECS, meta.GenNs)
 	return orig, meta, ""
 }
 
@@ -491,12 +494,23 @@ func checkContent(h *History, vs []*opView) {
 			h.S.Fail("C10", "wrong-upstream-data", "%s: answer came from upstream %s, rule selects %s", name, meta.Up, v.outcome.Forward)
 		}
 		if len(m.Q) != 1 || len(v.q.Q) != 1 || !m.Q[0].Name.EqualFold(v.q.Q[0].Name) || m.Q[0].Type != v.q.Q[0].Type || m.Q[0].Class != v.q.Q[0].Class {
-			continue // C03 reports it
+			continue // C03 reports it (and C07 when it came from the cache)
+		}
+		if meta.Class != v.q.Q[0].Class || meta.Type != v.q.Q[0].Type {
+			h.S.Fail("C04", "foreign-answer", "%s asked class %d type %d but the records were generated for class %d type %d (upstream %s serial %d)", name, v.q.Q[0].Class, v.q.Q[0].Type, meta.Class, meta.Type, meta.Up, meta.Serial)
+			continue
 		}
 		h.S.Probe("content_checked")
-		key := fmt.Sprintf("%s/%s/%d", meta.Up, meta.Token, meta.Serial)
+		key := fmt.Sprintf("%s/%s/%d/%d/%d", meta.Up, meta.Token, meta.Class, meta.Type, meta.Serial)
+		// fresh = relayed on the request path (the query was sent before the
+		// upstream produced this serial); otherwise it came from the cache.
 		fresh := !firstSeen[key]
 		firstSeen[key] = true
+		for _, rp := range h.Ups[meta.Up].Replies {
+			if rp.Token == meta.Token && rp.Serial == meta.Serial && rp.Key == peers.KeyOf(v.lower, meta.Class, meta.Type) && v.o.SentAt > rp.At {
+				fresh = false
+			}
+		}
 		oAn, oNs, oAr := orig.An, orig.Ns, stripOPT(orig.Ar)
 		gAn, gNs, gAr := m.An, m.Ns, stripOPT(m.Ar)
 		// C04: everything present must come from the original, in order.
